@@ -69,6 +69,16 @@ func main() {
 	}
 }
 
+// outDir is where evidence and replay files go: /verif, unless the check is
+// pointed at another tree (sensitivity runs against mutants must not
+// overwrite the evidence of the real tree).
+func outDir() string {
+	if v := os.Getenv("QSIM_OUT"); v != "" {
+		return v
+	}
+	return verifDir
+}
+
 func usage() {
 	fmt.Fprintln(os.Stderr, "usage: qsim check <property> [--tier quick|thorough] | replay <file> [--trace] | build | selftest determinism [props...]")
 	os.Exit(2)
@@ -511,7 +521,7 @@ func cmdCheck(args []string) int {
 			workers = n
 		}
 	}
-	replayDir := filepath.Join(verifDir, "replays")
+	replayDir := filepath.Join(outDir(), "replays")
 	os.MkdirAll(replayDir, 0755)
 
 	// chunks of runs are handed to a pool of worker processes
@@ -844,7 +854,7 @@ func writeEvidence(prop, tier string, seed uint64, t *summary, fps, efps map[uin
 	if err != nil {
 		return err
 	}
-	dir := filepath.Join(verifDir, "evidence")
+	dir := filepath.Join(outDir(), "evidence")
 	os.MkdirAll(dir, 0755)
 	return os.WriteFile(filepath.Join(dir, prop+".json"), b, 0644)
 }
